@@ -3,6 +3,7 @@ import Marwood.Vm.RunLoop
 import Driver.VmStep
 import Marwood.Vm.Eval
 import Driver.VmCompile
+import Driver.VmVerify
 /-! Driver commands of the Vm area. -/
 namespace Marwood.Driver.Vm
 open Marwood Marwood.Vm
@@ -40,6 +41,9 @@ def handle (cmd : String) (args : List String) : Option String :=
       let allU := s'.stack.cells.all (· == .undefined)
       pure s!"ok sp={s'.stack.sp} bp={s'.bp} ep={VmStep.showNatOrMax s'.ep} acc={VmStep.encCell s'.acc} allundef={if allU then 1 else 0} cap={s'.stack.cells.length}"
   | "compile", args => VmCompile.handle "compile" args
+  | "vbc", args => VmVerify.handle "vbc" args
+  | "vat", args => VmVerify.handle "vat" args
+  | "vcompile", args => VmVerify.handle "vcompile" args
   | _, _ => none
 
 end Marwood.Driver.Vm
